@@ -1,4 +1,5 @@
 import SqlgrepModel.Lemmas.InterruptRun
+import SqlgrepModel.Lemmas.InterruptFollow
 /-
 C19 — interrupting a query stops it promptly and leaves consistent output.
 
@@ -199,6 +200,36 @@ theorem interrupt_during_load (O : Oracles) (qy : Query) (j : JoinInfo) (hj : qy
   | error e => simp [runWithIndex, failWith]
   | panic s => simp [runWithIndex, failWith]
   | oracleMissing s => simp [runWithIndex, failWith]
+
+/-! ### follow mode (model of `FollowFileExecutor::execute`; tied to the code through the per-line engine step only) -/
+
+/-- follow mode: an interrupted run is the uninterrupted run over the lines delivered before the interruption,
+and consumes no further delivered line -/
+theorem follow_interrupt_is_run_over_prefix (O : Oracles) (qy : Query) (lines : List Line) (k : Nat) :
+    runFollowAll O qy (some k) lines = runFollowAll O qy none (lines.take k) ∧
+    (runFollowAll O qy (some k) lines).totalLines ≤ k := by
+  unfold runFollowAll
+  split
+  · exact ⟨rfl, Nat.zero_le _⟩
+  · have h := runFollow_stop_eq_take O qy k lines {} (Nat.zero_le _)
+    simp only [Nat.sub_zero] at h
+    have hb := runFollow_consumed_le O qy none (lines.take k) {}
+    rw [h]
+    refine ⟨rfl, ?_⟩
+    rw [List.length_take] at hb
+    simp only at hb ⊢
+    omega
+
+/-- follow mode: everything printed (rows, or the successive tables of an aggregate statement) is a prefix of
+what the uninterrupted run prints over the same delivered lines -/
+theorem follow_interrupt_output_prefix (O : Oracles) (qy : Query) (lines : List Line) (k : Nat) :
+    (runFollowAll O qy (some k) lines).printed <+: (runFollowAll O qy none lines).printed := by
+  unfold runFollowAll
+  split
+  · exact List.prefix_refl _
+  · rcases runFollow_rel O qy k lines {} (Nat.zero_le _) rfl with h | h
+    · rw [h]; exact List.prefix_refl _
+    · exact h.2.2
 
 /-! ### non-vacuity -/
 
